@@ -45,7 +45,7 @@ FilesOf(t) == {p \in DOMAIN t : t[p].k = "f"}
 \* the driver did what the clauses presuppose: the orders cover every ordered pair of files, every healthy file was
 \* processed alone on the tree the model defines, every produced output was probed
 HarnessOK(o, c, t0, t1) ==
-  IF ~Rc(c) THEN Len(o.orders) = 0 /\ Len(o.alone) = 0 /\ Len(o.ev) = 0
+  IF ~Rc(c) THEN Len(o.orders) = 0 /\ Len(o.alone) = 0 /\ (Len(o.ev) = 0 \/ c.cfg = "aliasdup")    \* aliasdup: the written alias is recorded (informational)
   ELSE
     /\ Work(c) # {} => OrdersCover(c, [n \in 1..Len(o.orders) |-> o.orders[n].ord])
     /\ {o.alone[n].e : n \in 1..Len(o.alone)} = HealthySet(c) /\ Len(o.alone) = Cardinality(HealthySet(c))
